@@ -208,6 +208,10 @@ def run_tree_property(ctx: Ctx, modname: str, spec: TreeSpec) -> Report:
         for rep in pool_imap_unordered(_sweep_worker, sweep, chunksize=1):
             total.merge(rep)
         total.extra["size_sweep_tasks"] = len(sweep)
+        tcases = tagged_payload_cases(spec)
+        for rep in pool_imap_unordered(_tagged_payload_worker, [(modname, tcases[i::16]) for i in range(16) if tcases[i::16]], chunksize=1):
+            total.merge(rep)
+        total.extra["tagged_payload_cases"] = len(tcases)
     total.extra["classes_covered"] = len(cds)
     total.extra["examples_per_class"] = n
     total.extra["profile"] = spec.profile.name
@@ -227,8 +231,11 @@ def run_tree_property(ctx: Ctx, modname: str, spec: TreeSpec) -> Report:
 # multiples of the block sizes chunked I/O code likes (64 KiB .. 16 MiB).  Random generation reaches them with
 # negligible probability, so the tree properties visit them by enumeration for a few classes of each shape.
 SWEEP_SIZES = (126, 127, 128, 129, 16382, 16383, 16384, 16385, 32767, 32768, 65535, 65536, 2097150, 2097151, 2097152, 2097153,
-               1 << 20, 1 << 22, 1 << 23)
-SWEEP_SIZES_BIG = (3 << 22, 1 << 24, (1 << 24) + 1, 1 << 25, 3 << 24)  # 12, 16, 16+, 32, 48 MiB: two classes per shape only
+               1 << 20, 1 << 22, 1 << 23,
+               # decimal and Kafka-configuration sizes: 10^6, message.max.bytes (1048588), 5 and 10 MiB, 10^7
+               1000000, 1048588, 5 << 20, 10 << 20, 10000000)
+# 12, 16, 16+, 32, 48 MiB and 20, 30, 50 MiB (fetch.max.bytes = 52428800): two classes per shape only
+SWEEP_SIZES_BIG = (3 << 22, 1 << 24, (1 << 24) + 1, 1 << 25, 3 << 24, 20 << 20, 30 << 20, 50 << 20)
 
 
 def _blob_paths(cd: D.ClassDesc, depth: int = 0):
@@ -260,7 +267,8 @@ def sweep_tree(cd: D.ClassDesc, path: tuple, blob: bytes) -> dict:
 
 def size_sweep_targets(spec: TreeSpec) -> list[tuple[str, tuple, bool]]:
     """-> [(class path, field path or ("__unknown__",), with_big_sizes)]: per shape (flexible?, kind, nullable, nested?) the
-    first three classes in path order; per flexible/top-level-ness two classes for unknown-tag payloads."""
+    first three classes in path order (the sizes of 12 MiB and more only for the first class of each (flexible?, kind)); two classes per
+    tagged-fields-or-not for unknown-tag payloads."""
     seen: Counter = Counter()
     out = []
     for cls in D.all_classes():
@@ -271,13 +279,15 @@ def size_sweep_targets(spec: TreeSpec) -> list[tuple[str, tuple, bool]]:
             shape = (cd.flexible, f.kind, f.nullable, len(path) > 1, f.tag is not None)
             if seen[shape] < 3:
                 seen[shape] += 1
-                out.append((cd.path, path, seen[shape] <= 2))
+                coarse = ("big", cd.flexible, f.kind)  # the 12..50 MiB sizes: first class of each (flexible?, kind) only
+                seen[coarse] += 1
+                out.append((cd.path, path, seen[coarse] == 1))
             break
         if spec.profile.unknown_tags and cd.flexible and not cd.is_request_header:
             shape = ("unknown", bool(cd.tagged_fields))
             if seen[shape] < 2:
                 seen[shape] += 1
-                out.append((cd.path, (UNKNOWN,), True))
+                out.append((cd.path, (UNKNOWN,), seen[shape] == 1))
     return out
 
 
@@ -312,6 +322,102 @@ def _sweep_worker(task) -> Report:
             rep.add_failure(Failure(signature=f"{sig}", message=f"[size sweep: {'.'.join(fpath)} = {n} bytes] {msg}"[:4000],
                                     replay={"class": cd.path, "sweep": {"path": list(fpath), "size": n}, "extra": _extra_json(spec.sweep_extra)},
                                     size=n))
+    return rep
+
+
+# ---- tagged fields whose ENCODED VALUE has a given size (the size prefix of a tagged field is a varint of its own)
+TAGGED_PAYLOAD_SIZES = (126, 127, 128, 129, 255, 256, 16383, 16384, 16385)
+
+
+def _leaf_path(c: D.ClassDesc, depth: int = 0):
+    for g in c.fields:
+        if g.tag is None and not g.array and g.kind in ("string", "bytes") and not g.nullable:
+            return (g.name,)
+    for g in c.fields:
+        if g.tag is None and not g.array and g.kind == "struct" and depth < 2:
+            sub = _leaf_path(g.struct, depth + 1)
+            if sub:
+                return (g.name,) + sub
+    return None
+
+
+def tagged_payload_tree(cd: D.ClassDesc, f, size: int):
+    """A tree of cd in which tagged field f (a struct or an array of structs that contains a string somewhere) is present
+    with an encoded value of exactly `size` bytes; None if that cannot be arranged."""
+    from .refcodec import ref_encode, uvarint, zero_tree
+
+    leaf = _leaf_path(f.struct)
+    if leaf is None:
+        return None
+
+    def build(n_leaf: int, extra_items: int):
+        item = zero_tree(f.struct)
+        node = item
+        for name in leaf[:-1]:
+            node = node[name]
+        node[leaf[-1]] = b"t" * n_leaf
+        v = [item] + [zero_tree(f.struct) for _ in range(extra_items)] if f.array else item
+        tree = zero_tree(cd)
+        tree[f.name] = Present(v)
+        return tree
+
+    absent = len(ref_encode(cd, zero_tree(cd)))
+
+    def payload(tree) -> int:
+        total = len(ref_encode(cd, tree)) - absent - len(uvarint(f.tag))
+        for p in (total - 1, total - 2, total - 3):  # total = payload + len(uvarint(payload))
+            if p >= 0 and p + len(uvarint(p)) == total:
+                return p
+        return -1
+
+    for extra in ((0, 1, 2) if f.array else (0,)):
+        n = 0
+        for _ in range(6):
+            try:
+                tree = build(n, extra)
+                got = payload(tree)
+            except Exception:
+                break
+            if got == size:
+                return tree
+            n += size - got
+            if n < 0:
+                break
+    return None
+
+
+def tagged_payload_cases(spec: TreeSpec) -> list[tuple[str, str, int]]:
+    out = []
+    for cls in D.all_classes():
+        cd = D.describe(cls)
+        if spec.class_filter and not spec.class_filter(cd):
+            continue
+        for f in cd.fields:
+            if f.tag is not None and f.kind == "struct" and _leaf_path(f.struct) is not None:
+                out.extend((cd.path, f.name, n) for n in TAGGED_PAYLOAD_SIZES)
+    return out
+
+
+def _tagged_payload_worker(task) -> Report:
+    modname, cases = task
+    spec = importlib.import_module(modname).SPEC
+    rep = Report(prop=spec.prop, level=spec.level, rule=spec.rule)
+    NOTES.clear()
+    for path, fname, n in cases:
+        cd = D.describe(D.resolve(path))
+        if spec.reset is not None:
+            spec.reset()
+        f = next(x for x in cd.fields if x.name == fname)
+        tree = tagged_payload_tree(cd, f, n)
+        if tree is None:
+            rep.labels["tagged_payload_unreachable"] += 1
+            continue
+        rep.evaluations += 1
+        rep.labels["tagged_payload_sweep"] += 1
+        rep.nontrivial.add(case_hash((path, fname, n)))
+        for sig, msg in guarded_check(spec, cd, tree, spec.sweep_extra):
+            rep.add_failure(Failure(signature=sig, message=f"[tagged field {fname} with an encoded value of exactly {n} bytes] {msg}"[:4000],
+                                    replay={"class": path, "tree": tree_to_json(tree), "extra": _extra_json(spec.sweep_extra)}, size=n))
     return rep
 
 
